@@ -22,6 +22,7 @@ type closerRules struct {
 	base    *Base
 	rule    string
 	consume map[string]map[int]string // funcKey -> param index -> policy
+	keep    func(what string) bool
 }
 
 // acquirers: callee -> (result index of the closer, index of the error result)
@@ -75,10 +76,20 @@ type closerEntry struct {
 	policy string   // "always" (closed/moved at every exit) or "error-closed" (closed on error exits; on success owned by the result)
 }
 
+// runCloserRulesOnly runs the ownership analysis but reports only the
+// resources whose kind passes keep (the rule is declared by the caller).
+func runCloserRulesOnly(c *Ctx, rule string, entries []closerEntry, keep func(what string) bool) {
+	runCloserRulesF(c, rule, entries, keep)
+}
+
 func runCloserRules(c *Ctx, rule string, entries []closerEntry, min int, doc string) {
+	c.R.Rule(rule, "E2", doc, min)
+	runCloserRulesF(c, rule, entries, nil)
+}
+
+func runCloserRulesF(c *Ctx, rule string, entries []closerEntry, keep func(what string) bool) {
 	R := c.R
-	R.Rule(rule, "E2", doc, min)
-	g := &closerRules{c: c, rule: rule, consume: map[string]map[int]string{}}
+	g := &closerRules{c: c, rule: rule, consume: map[string]map[int]string{}, keep: keep}
 	allEntries := append(append(append([]closerEntry{}, diskCloserEntries...), proxyCloserEntries...), serverCloserEntries...)
 	for _, e := range allEntries {
 		if len(e.owned) == 0 {
@@ -196,7 +207,7 @@ func (g *closerRules) call(x *Exec, call *ast.CallExpr, lhs []ast.Expr, s St) ([
 	// x.Close() / x.CloseWithError(e)
 	if sel, ok := call.Fun.(*ast.SelectorExpr); ok && (sel.Sel.Name == "Close" || sel.Sel.Name == "CloseWithError") {
 		if id, _ := g.res(x, sel.X, s); id != "" {
-			if s.Get("maynil:"+id) != "" && !x.InDefer {
+			if s.Get("maynil:"+id) != "" && !x.InDefer && g.keep == nil {
 				// R12f: a method call on an interface value that can be nil panics
 				// (deferred calls are judged where they are registered)
 				t, _ := b.Term(x, sel.X, s)
@@ -462,7 +473,7 @@ func (g *closerRules) stmt(x *Exec, n ast.Node, s St) ([]St, bool) {
 			if id == "" {
 				continue
 			}
-			if st.Get("maynil:"+id) != "" {
+			if st.Get("maynil:"+id) != "" && g.keep == nil {
 				t, _ := g.base.Term(x, sel.X, st)
 				g.report(x, st.Get("n:"+t) == "nonnil", "nilcall:"+st.Get("name:"+id)+"("+id+")", c.Pos(),
 					st.Get("what:"+id)+" "+st.Get("name:"+id)+" is known to be non-nil when the deferred "+sel.Sel.Name+" is registered",
@@ -496,7 +507,7 @@ func (g *closerRules) stmt(x *Exec, n ast.Node, s St) ([]St, bool) {
 	}
 	if gs, ok := n.(*ast.GoStmt); ok {
 		if lit, ok := gs.Call.Fun.(*ast.FuncLit); ok {
-			st := s
+			st := s.Set("gostarted", "1")
 			for _, c := range callsIn(lit.Body, true) {
 				if sel, ok := c.Fun.(*ast.SelectorExpr); ok && (sel.Sel.Name == "Close" || sel.Sel.Name == "CloseWithError") {
 					if id, rs := g.res(x, sel.X, st); id != "" && rs == "open" {
@@ -583,7 +594,13 @@ func (g *closerRules) exit(x *Exec, ret *ast.ReturnStmt, s St) {
 			}
 		}
 		what, name := s.Get("what:"+id), s.Get("name:"+id)
+		if g.keep != nil && !g.keep(what) {
+			continue
+		}
 		leaked := v == "open" && !isNil
+		if what == "pipe read end" && s.Get("gostarted") == "" {
+			leaked = false // nobody writes to the pipe on this path: it is simply dropped
+		}
 		if own := s.Get("own:" + id); own == "error-closed" {
 			if errNil == "nonnil" {
 				leaked = v == "open" || v == "returned"
